@@ -24,7 +24,7 @@ impl Monitor for C11 {
         vec![("blocks", tier.pick(160 * 2000, 160 * 40_000))]
     }
     fn rule(&self) -> &'static str {
-        "case i -> (flat | spatial block) x loops L in 1..4 x input-skips x output-skips x accumulation in {add, subtract, multiply, mean, overwrite} (the 160-point grid is walked completely, 40+ times), body of 1..3 random shape-preserving layers (dense; 'same' convolutions incl. dilation 2, size-preserving deconvolutions, deconvolution+max-pool pairs), the block placed first / after a layer of matching representation / before a dense layer (flattened output) / last; repetition-free weights in [-1,1]; Network::predict is compared with the reference block (L-fold application with shared weights, repetition r>1 fed combine(previous output, block input), output = combine(last, earlier outputs)) within the running f32 error bound. Every fourth case puts dropout 0.5 on the block's layers and sends the network object through a learn() call with two epochs, after which the installed weights are put back, before predicting: the block must still compute the dropout-free sequence. Distinct = distinct configuration descriptors."
+        "case i -> (flat | spatial block) x loops L in 1..4 x input-skips x output-skips x accumulation in {add, subtract, multiply, mean, overwrite} (the 160-point grid is walked completely, 40+ times), body of 1..3 random shape-preserving layers (dense; 'same' convolutions incl. dilation 2, size-preserving deconvolutions, deconvolution+max-pool pairs), the block placed first / after a layer of matching representation / before a dense layer (flattened output) / last; repetition-free weights in [-1,1]; Network::predict is compared with the reference block (L-fold application with shared weights, repetition r>1 fed combine(previous output, block input), output = combine(last, earlier outputs)) within the running f32 error bound. Every fourth case puts dropout 0.5 on the block's layers and sends the network object through a learn() call with two epochs, after which the installed weights are put back, before predicting: the block must still compute the dropout-free sequence. Every fourth case trains the network for 1..3 epochs on two samples (SGD 0.05, batch 1..2) and predicts with the weights training left behind: the reference block then uses the weights read from the block's first repetition for all repetitions. Distinct = distinct configuration descriptors."
     }
     fn assumptions(&self) -> Vec<&'static str> {
         vec!["reference block semantics written from the property statement (refmodel::block_forward); multiply/subtract/mean over several sources read as a*prod(s), a-sum(s), (a+sum(s))/(1+|s|); overwrite = last source"]
@@ -95,6 +95,11 @@ impl Monitor for C11 {
         // through a learn() call (learning rate 0: the weights stay as installed) before it is
         // asked to predict - the block must still compute the dropout-free repeated sequence
         let used = (idx / 7) % 4 == 1;
+        // every fourth case: the network is trained for a few steps (no dropout) and predicts with
+        // the weights training left behind: the block must compute the repeated sequence with
+        // the weights of its first repetition shared by all repetitions
+        let trained_variant = (idx / 7) % 4 == 3;
+        let mut params = params;
         let mut lib_cfg = cfg.clone();
         if used {
             for l in lib_cfg.layers.iter_mut() {
@@ -137,6 +142,40 @@ impl Monitor for C11 {
             set_params(&mut net, &params);
             out.count("predictions_after_a_learn_call_with_dropout_in_the_block", 1);
         }
+        if trained_variant {
+            let xin = tensor_of(cfg.input, &x);
+            let x2 = varied_input(&mut rng, cfg.input);
+            let xin2 = tensor_of(cfg.input, &x2);
+            let n_out = cfg.shapes().unwrap().last().unwrap().1.count();
+            let tt = Tensor::single((0..n_out).map(|i| 0.25 + 0.5 * (i % 2) as f32).collect());
+            net.set_objective(lib_obj(Obj::MSE), Some((-1.0, 1.0)));
+            net.set_optimizer(OptCfg::Sgd { lr: 0.05, decay: None }.build());
+            let batch = rng.range(1, 2);
+            let epochs = rng.range(1, 3) as i32;
+            let trained = guard(|| {
+                net.learn(&vec![&xin, &xin2], &vec![&tt, &tt], None, batch, epochs, None);
+            });
+            let after = match trained {
+                Ok(()) => guard(|| read_params(&net, &cfg, &params)),
+                Err(m) => Err(m),
+            };
+            match after {
+                Ok(p) if p.iter().all(|q| q.flat().iter().all(|v| v.is_finite() && v.abs() <= 4.0)) => {
+                    if p.iter().zip(params.iter()).any(|(a, b)| a.flat() != b.flat()) {
+                        out.count("predictions_with_weights_left_by_training_(weights_moved)", 1);
+                    }
+                    params = p;
+                    out.count("predictions_with_weights_left_by_training", 1);
+                }
+                _ => {
+                    // (the backward pass of blocks with internal skips / max-pool bodies is
+                    // outside this property; diverged weights are of no use)
+                    out.count("trained_variants_skipped_(learn_panicked_or_diverged)", 1);
+                    out.nontrivial = false;
+                    return out;
+                }
+            }
+        }
         let r: RNet<E> = RNet::plain(&cfg, &params);
         let want = r.forward(&Val::from_f32(cfg.input, &x));
         match guard(|| net.predict(&tensor_of(cfg.input, &x))) {
@@ -167,6 +206,7 @@ impl Monitor for C11 {
         agg.extra.push(("grid_points_covered_of_160".into(), J::Int(agg.set_size("grid") as i64)));
         agg.require(agg.set_size("grid") == 160, format!("grid coverage {} of 160", agg.set_size("grid")));
         agg.require(agg.count("predictions_after_a_learn_call_with_dropout_in_the_block") >= 2000, "too few predictions on used objects".into());
+        agg.require(agg.count("predictions_with_weights_left_by_training_(weights_moved)") >= 2000, "too few predictions with trained weights".into());
         agg.require(agg.set_size("positions") == 8, "positions not all exercised".into());
     }
 }
